@@ -5,6 +5,7 @@ package main
 import (
 	"fmt"
 	"math/rand"
+	"slices"
 	"sort"
 	"strings"
 	"sync"
@@ -320,6 +321,12 @@ func judgePair(c *h.Case, in sessIn, out sessOut) string {
 			}
 		}
 	}
+	// a candidate port range is an instruction about the OTHER party's ports: present exactly when the behaviour table
+	// gives this (mode, role) a port range number, around a port the other party was observed at, never around one's own
+	if !mustErr && !either && vb.Mode == cb.Mode && (roles == "sender/receiver" || roles == "receiver/sender") {
+		judgeRange(c, out.Sid, "visitor", vb, in.C.Mapped, in.V.Mapped, desc)
+		judgeRange(c, out.Sid, "owner", cb, in.V.Mapped, in.C.Mapped, desc)
+	}
 	// role rules, judged when exactly one party has the named feature
 	if !mustErr && !either && vb.Mode == cb.Mode {
 		hardRole, easyRole := "", ""
@@ -376,6 +383,86 @@ func judgePair(c *h.Case, in sessIn, out sessOut) string {
 		vb.SendRandomPorts, cb.SendRandomPorts, vb.ListenRandomPorts, cb.ListenRandomPorts, len(vb.CandidatePorts), len(cb.CandidatePorts))
 	modeSeen(vb.Mode, sig)
 	return sig
+}
+
+// rangeNumber is the check's own copy of the behaviour tables' "ports range number" per (mode, role): how far around the
+// other party's observed port the party is told to probe (0 = no range is handed out).
+func rangeNumber(mode int, role string) int {
+	switch {
+	case mode == 1 && role == "receiver":
+		return 10
+	case mode == 3:
+		return 10
+	case mode == 4 && role == "receiver":
+		return 2
+	}
+	return 0
+}
+
+func portsOf(list []string) (ports []int, last int) {
+	for _, a := range list {
+		if _, p, cls, _ := readAddr(a); cls != addrBad {
+			ports = append(ports, p)
+			last = p
+		}
+	}
+	return
+}
+
+func adjacentDuplicates(l []string) bool {
+	for i := 1; i < len(l); i++ {
+		if l[i] == l[i-1] {
+			return true
+		}
+	}
+	return false
+}
+
+// judgeRange: `who` received behaviour b; otherMapped is what the other party observed, ownMapped what `who` observed.
+func judgeRange(c *h.Case, sid, who string, b msg.NatHoleDetectBehavior, otherMapped, ownMapped []string, desc string) {
+	n := rangeNumber(b.Mode, b.Role)
+	if n == 0 {
+		if len(b.CandidatePorts) > 0 {
+			c.Violation("candidate-port-range-unexpected", "session %s mode %d: the %s (%s) was handed candidate port range %v although this mode and role probe no port range; %s", sid, b.Mode, who, b.Role, b.CandidatePorts, desc)
+		}
+		return
+	}
+	run.Count(fmt.Sprintf("range_due_%s_mode%d", who, b.Mode), 1)
+	otherPorts, otherLast := portsOf(otherMapped)
+	ownPorts, _ := portsOf(ownMapped)
+	if len(b.CandidatePorts) == 0 {
+		if adjacentDuplicates(otherMapped) {
+			c.Violation("candidate-port-range-missing-after-repeated-observation", "session %s mode %d: the %s (%s, ports range number %d) was handed no candidate port range; the other party's mapped list %q repeats an address in neighbouring positions; %s",
+				sid, b.Mode, who, b.Role, n, otherMapped, desc)
+		} else {
+			c.Violation("candidate-port-range-missing", "session %s mode %d: the %s (%s, ports range number %d) was handed no candidate port range for the other party's ports %v; %s", sid, b.Mode, who, b.Role, n, otherPorts, desc)
+		}
+		return
+	}
+	for _, r := range b.CandidatePorts {
+		in := func(p int) bool { return p >= r.From && p <= r.To }
+		hitOther, hitOwn := false, false
+		for _, p := range otherPorts {
+			hitOther = hitOther || in(p)
+		}
+		for _, p := range ownPorts {
+			hitOwn = hitOwn || in(p)
+		}
+		switch {
+		case !hitOther && hitOwn:
+			c.Violation("candidate-port-range-built-from-own-observation", "session %s mode %d: the %s (%s) is told to probe ports %d-%d of the other party, which was observed at ports %v; the range is around the %s's own ports %v; %s",
+				sid, b.Mode, who, b.Role, r.From, r.To, otherPorts, who, ownPorts, desc)
+		case !hitOther:
+			c.Violation("candidate-port-range-not-around-other-partys-port", "session %s mode %d: the %s (%s) is told to probe ports %d-%d, the other party was observed at ports %v; %s", sid, b.Mode, who, b.Role, r.From, r.To, otherPorts, desc)
+		case r.From < slices.Min(otherPorts)-n || r.To > slices.Max(otherPorts)+n:
+			c.Violation("candidate-port-range-wider-than-range-number", "session %s mode %d: the %s (%s, ports range number %d) is told to probe ports %d-%d; the other party was observed at ports %v (last %d); %s", sid, b.Mode, who, b.Role, n, r.From, r.To, otherPorts, otherLast, desc)
+		default:
+			// unambiguous only when the two parties' ports are far apart
+			if !hitOwn {
+				run.Count("ranges_around_other_partys_port_only", 1)
+			}
+		}
+	}
 }
 
 var modeMu sync.Mutex
@@ -643,6 +730,89 @@ func burst(c *h.Case, book *tidBook, V *h.Peer, O *owner, name, sk, vBlock, cBlo
 	}
 	sort.Strings(sigs)
 	return sigs
+}
+
+// rangeCase: forced observations for hard NATs with the two parties' ports far apart (visitor 20001.., owner 40001..), so
+// that in every run the owner and the visitor each sit on the range-receiving side of modes 1, 3 and 4 and "around the other
+// party's port" cannot be confused with "around one's own".
+var rangeKinds = []struct {
+	Name     string
+	V, C     string // regular | irregular | easy
+	Sessions int
+}{
+	{"hard-regular-visitor/easy-owner", "regular", "easy", 7},      // mode 1 x6: owner is the receiver and gets the range
+	{"easy-visitor/hard-regular-owner", "easy", "regular", 7},      // mode 1 x6: visitor gets the range
+	{"hard-irregular-visitor/easy-owner", "irregular", "easy", 5},  // mode 2 x3, then mode 1: owner gets the range
+	{"regular/regular", "regular", "regular", 9},                   // mode 3 x6 (both get ranges), then mode 4
+	{"regular-visitor/irregular-owner", "regular", "irregular", 3}, // mode 4: owner is the receiver and gets the range
+	{"irregular-visitor/regular-owner", "irregular", "regular", 3}, // mode 4: visitor gets the range
+}
+
+func forcedObs(kind string, ip string, base int, k int, repeat bool) obs {
+	mk := func(ports ...int) obs {
+		o := obs{Class: kind}
+		for _, p := range ports {
+			o.Mapped = append(o.Mapped, fmt.Sprintf("%s:%d", ip, p))
+		}
+		return o
+	}
+	b := base + 20*k
+	switch kind {
+	case "regular":
+		if repeat {
+			return mk(b, b, b+3)
+		}
+		return mk(b, b+3)
+	case "irregular":
+		if repeat {
+			return mk(b, b+300, b+300)
+		}
+		return mk(b, b+300)
+	}
+	return mk(b, b)
+}
+
+func rangeCase(c *h.Case, lo int) {
+	k := c.Idx - lo
+	kind := rangeKinds[k%len(rangeKinds)]
+	repeat := (k/len(rangeKinds))%2 == 1 // second round: the hard party's list repeats an address in neighbouring positions
+	pfx := fmt.Sprintf("c%d.", c.Idx)
+	c.Data["kind"], c.Data["repeat"] = kind.Name, repeat
+	O, err := dialOwner("o", true)
+	if err != nil {
+		run.Inconclusive("owner login failed")
+		return
+	}
+	defer O.p.Close()
+	V, err := dialPlain("v")
+	if err != nil {
+		run.Inconclusive("visitor login failed")
+		return
+	}
+	defer V.Close()
+	name, sk := pfx+"x", fmt.Sprintf("sk-%d", c.Rng.Int63())
+	if err := O.register(name, sk); err != nil {
+		c.Violation("xtcp-registration-refused", "fresh xtcp proxy %s refused: %v", name, err)
+		return
+	}
+	book := newTidBook()
+	vIP := fmt.Sprintf("16.%d.%d.1", (c.Idx>>8)&255, c.Idx&255)
+	cIP := fmt.Sprintf("17.%d.%d.1", (c.Idx>>8)&255, c.Idx&255)
+	var sigs []string
+	for i := 0; i < kind.Sessions; i++ {
+		in := sessIn{Name: name, Sk: sk, Proto: "quic", VTid: fmt.Sprintf("%sv%d", pfx, i), CTid: fmt.Sprintf("%so%d", pfx, i),
+			V: forcedObs(kind.V, vIP, 20001, i, repeat), C: forcedObs(kind.C, cIP, 40001, i, repeat)}
+		out := drive(c, book, V, O, in)
+		sig := judgePair(c, in, out)
+		if sig == "" {
+			run.Inconclusive("range case: exchange not answered")
+			return
+		}
+		sigs = append(sigs, sig)
+	}
+	book.strays(c, map[string]*h.Peer{"owner": O.p, "visitor": V})
+	run.Distinct(fmt.Sprintf("range|%s|%v|%s", kind.Name, repeat, strings.Join(sigs, ";")))
+	run.Count("forced_range_cases", 1)
 }
 
 // reportStep sends (or not) success reports for the session just answered; reports drive the server's score table.
